@@ -1,6 +1,7 @@
 package main
 
 import (
+	"sort"
 	"fmt"
 	"go/ast"
 	"go/parser"
@@ -20,6 +21,7 @@ type TV struct {
 
 type SpecEnv struct {
 	lets        map[string]ast.Expr
+	noUnfold    bool // inside the body of a specfn being unfolded: inner applications stay folded
 	assumeLocks bool // evaluating the precondition of the function under verification: holds(x) defines the entry lockset
 	ex   *Exec
 	st   *State
@@ -171,6 +173,9 @@ func (ex *Exec) funcEnv(st *State, fr *Frame) *SpecEnv {
 			env.vars[p.Name()] = TV{v, p.Type()}
 		}
 	}
+	for n, tv := range fr.Extra {
+		env.vars[n] = tv
+	}
 	for i, fv := range fr.Fn.FreeVars {
 		_ = i
 		if v, ok := fr.Regs[fv]; ok {
@@ -198,12 +203,27 @@ func (ex *Exec) loopEnv(st *State, fr *Frame) *SpecEnv {
 			env.vars["old_"+p.Name()] = TV{v, p.Type()}
 		}
 	}
-	for a, c := range fr.Cells {
+	// several locals may share a name (two range loops: two "rangeindex" cells): take the one
+	// declared last before the current position, and for rangeindex the innermost enclosing loop's
+	var names []*ssa.Alloc
+	for a := range fr.Cells {
+		names = append(names, a)
+	}
+	sort.Slice(names, func(i, j int) bool { return names[i].Pos() < names[j].Pos() })
+	for _, a := range names {
+		c := fr.Cells[a]
 		if a.Comment == "" || strings.Contains(a.Comment, "$") {
 			continue
 		}
 		if v, ok := st.Locals[c]; ok {
 			env.vars[a.Comment] = TV{v, c.Typ}
+		}
+	}
+	if al := ex.enclosingRangeIndex(fr); al != nil {
+		if c := fr.Cells[al]; c != nil {
+			if v, ok := st.Locals[c]; ok {
+				env.vars["rangeindex"] = TV{v, c.Typ}
+			}
 		}
 	}
 	// heap-allocated (escaping) named locals
@@ -468,8 +488,12 @@ func (env *SpecEnv) eval(e ast.Expr) TV {
 			}
 			return TV{v, et}
 		case Scalar:
-			if isStringT(base.T) {
+			if base.T != nil && isStringT(base.T) {
 				return TV{Scalar{SAt(b.T, idx)}, types.Typ[types.Uint8]}
+			}
+			if b.T.Sort.Kind == KArr {
+				// a raw row (elemtags)
+				return TV{Scalar{Select(b.T, idx)}, types.Typ[types.Int]}
 			}
 		}
 		tool("spec: index of %T", base.V)
@@ -695,6 +719,39 @@ func (env *SpecEnv) setGhostGlobal(name string, v TV) {
 	}
 }
 
+// assignGhost performs one ghost assignment of a hook: a ghost global/local, or a scalar ghost field.
+func (env *SpecEnv) assignGhost(gs *GhostSet, i int, v TV) {
+	if i >= len(gs.Targets) || gs.Targets[i] == nil {
+		env.setGhostGlobal(gs.Names[i], v)
+		return
+	}
+	sel, ok := gs.Targets[i].(*ast.SelectorExpr)
+	if !ok || !strings.HasPrefix(sel.Sel.Name, "ghost_") {
+		tool("spec: ghost assignment target %s", gs.Names[i])
+	}
+	base := env.eval(sel.X)
+	name := strings.TrimPrefix(sel.Sel.Name, "ghost_")
+	cur := env.ghostField(base, name)
+	if _, ok := cur.V.(Scalar); !ok {
+		tool("spec: ghost assignment to a non-scalar ghost field %s", gs.Names[i])
+	}
+	var key *Term
+	switch b := base.V.(type) {
+	case *PtrV:
+		key = ptrTerm(b)
+	case IfaceV:
+		key = b.Val
+	}
+	t := base.T
+	if pt, ok := under(t).(*types.Pointer); ok {
+		t = pt.Elem()
+	}
+	class := typeName(t) + ".$" + name
+	val := env.coerce(v, cur.T).(Scalar).T
+	h := env.st.heapGet(class, SArr(SInt, val.Sort))
+	env.st.Heap[class] = Store(h, key, val)
+}
+
 // lvaluePtr evaluates an expression denoting a mutex: a struct-typed field yields its address, a
 // pointer-typed expression its value.
 func (env *SpecEnv) lvaluePtr(e ast.Expr) TV {
@@ -833,7 +890,75 @@ func (env *SpecEnv) evalCall(c *ast.CallExpr) TV {
 	boolT := types.Typ[types.Bool]
 	intT := types.Typ[types.Int]
 	if id, ok := c.Fun.(*ast.Ident); ok {
+		if m, ok := ex.Specs.Macros[id.Name]; ok {
+			if len(m.Params) != len(c.Args) {
+				tool("spec: macro %s takes %d arguments", id.Name, len(m.Params))
+			}
+			inner := env
+			for i, prm := range m.Params {
+				inner = inner.with(prm, env.eval(c.Args[i]))
+			}
+			return inner.eval(m.Body)
+		}
+		if m, ok := ex.Specs.SpecFns[id.Name]; ok {
+			// recursive specification function: an uninterpreted function plus its defining equation
+			// for exactly these arguments (one unfolding per occurrence; the definition must terminate)
+			if len(m.Params) != len(c.Args) {
+				tool("spec: specfn %s takes %d arguments", id.Name, len(m.Params))
+			}
+			var fl []*Term
+			inner := env
+			for i, prm := range m.Params {
+				av := env.eval(c.Args[i])
+				inner = inner.with(prm, av)
+				fl = append(fl, flatten(av.V)...)
+			}
+			app := UF("specfn:"+id.Name, SInt, fl...)
+			if !env.noUnfold {
+				in2 := *inner
+				in2.noUnfold = true
+				body := in2.eval(m.Body)
+				env.st.assume(Eq(app, body.V.(Scalar).T))
+			}
+			return TV{Scalar{app}, intT}
+		}
 		switch id.Name {
+		case "elemtags":
+			// elemtags(s): the dynamic type tags of the elements of the interface slice s (its backing row)
+			sv, ok := env.eval(c.Args[0]).V.(SliceV)
+			tt := env.eval(c.Args[0]).T
+			if !ok || tt == nil {
+				tool("spec: elemtags of a non-slice")
+			}
+			et := under(tt).(*types.Slice).Elem()
+			h := env.st.heapGet("[]"+typeName(et)+"@tag", heapSort(2, SInt))
+			return TV{Scalar{Select(h, sv.Arr)}, nil}
+		case "elems":
+			// elems(s): the row of element values of a slice whose elements are single words (pointers, ints)
+			a0 := env.eval(c.Args[0])
+			sv, ok := a0.V.(SliceV)
+			if !ok || a0.T == nil {
+				tool("spec: elems of a non-slice")
+			}
+			et := under(a0.T).(*types.Slice).Elem()
+			cs := comps(et)
+			if len(cs) != 1 {
+				tool("spec: elems: element type %s is not a single word", typeName(et))
+			}
+			h := env.st.heapGet("[]"+typeName(et)+cs[0].Suffix, heapSort(2, cs[0].Sort))
+			return TV{Scalar{Select(h, sv.Arr)}, nil}
+		case "sliceoff":
+			sv, ok := env.eval(c.Args[0]).V.(SliceV)
+			if !ok {
+				tool("spec: sliceoff of a non-slice")
+			}
+			return TV{Scalar{sv.Off}, intT}
+		case "typetag":
+			t := env.resolveType(c.Args[0])
+			if t == nil {
+				tool("spec: typetag: unknown type %s", exprString(c.Args[0]))
+			}
+			return TV{Scalar{IntLit(tagOf(t))}, intT}
 		case "old":
 			if env.old == nil {
 				return env.eval(c.Args[0])
